@@ -1178,7 +1178,9 @@ func Initialize(directory string) *CodeGraph {
 	close(fileChan)
 
 	// Status updater
+	statusDone := make(chan struct{})
 	go func() {
+		defer close(statusDone)
 		statusLines := make([]string, numWorkers)
 		progress := 0
 		for {
@@ -1221,6 +1223,8 @@ func Initialize(directory string) *CodeGraph {
 			codeGraph.AddEdge(edge.From, edge.To)
 		}
 	}
+	// the progress display must have stopped writing before the scan returns
+	<-statusDone
 
 	end := time.Now()
 	elapsed := end.Sub(start)
